@@ -7,7 +7,7 @@
    withdrawn) has been fixed in /repo; the model follows the source through gen/Gen_OracleSlash.v, the
    property is proved for the fixed variant (C13_unbond_once) and refuted for the pre-fix variant. *)
 From Coq Require Import ZArith List Bool.
-From FxV Require Import gen.Gen_OracleSlash model.M_OracleReg proofs.P_OracleReg proofs.P_OracleReg2 proofs.P_OracleReg3.
+From FxV Require Import gen.Gen_OracleSlash model.M_OracleReg proofs.P_OracleReg proofs.P_OracleReg2 proofs.P_OracleRegStake proofs.P_OracleReg3.
 Import ListNotations.
 Open Scope Z_scope.
 
@@ -22,13 +22,16 @@ Theorem C13_indexes : forall h t ub vs p ops s, s = run (init h t ub vs p) ops -
 Proof. exact indexes_one_to_one. Qed.
 Print Assumptions C13_indexes.
 
-(* 2. only approved oracles bond, stake inside the bounds; recorded = transferred = delegated *)
+(* 2. only approved oracles bond, stake inside the bounds; recorded = transferred = delegated
+      ([deleg] counts SHARES scaled 10^18; [rate1 s]: no validator has been slashed by staking, 1 share = 1 token) *)
 Theorem C13_bond_rules : forall s a b e v amt s', step s (Bond a b e v amt) = Ok s' ->
   In a (proposal s) /\ recs s a = None /\ by_bridger s b = None /\ by_ext s e = None /\
   p_threshold (prm s) <= amt <= max_stake (prm s) /\
   recs s' a = Some (mkOracle a b e amt (height s) true v 0) /\
-  bal_o s' a = bal_o s a - amt /\ deleg s' a v = deleg s a v + amt /\ bal_d s' = bal_d s /\
-  burned s' = burned s.
+  bal_o s' a = bal_o s a - amt /\ bal_d s' = bal_d s /\ burned s' = burned s /\
+  (exists V' dl', stk_delegate (vals s) (deleg s) a v amt = Some (V', dl') /\ vals s' = V' /\ deleg s' = dl' /\
+                  v_tok V' v = vtok s v + amt) /\
+  (rate1 s -> deleg s' a v = deleg s a v + amt * dec_one).
 Proof. exact bond_rules. Qed.
 Print Assumptions C13_bond_rules.
 
@@ -41,19 +44,20 @@ Theorem C13_add_delegate_rules : forall s a amt rw s', step s (AddDelegate a amt
     recs s' a = Some (mkOracle (o_addr r) (o_bridger r) (o_ext r) (o_amount r + dc)
                                (if o_online r then o_start r else height s) true (o_val r) 0) /\
     bal_o s' a = bal_o s a - amt /\
-    deleg s' a (o_val r) = deleg s a (o_val r) + dc /\
+    (rate1 s -> deleg s' a (o_val r) = deleg s a (o_val r) + dc * dec_one) /\
     burned s' = burned s + sl.
 Proof. exact add_delegate_rules. Qed.
 Print Assumptions C13_add_delegate_rules.
 
-(* 3. the stake equation that does hold in every reachable state: recorded stake = delegated on the
-      oracle's behalf + what governance removal undelegated since the record was created *)
-Theorem C13_stake_accounting : forall h t ub vs p ops s a r, s = run (init h t ub vs p) ops ->
-  recs s a = Some r ->
-  o_amount r = deleg s a (o_val r) + gov_und s a /\
+(* 3. the stake equation, along every operation list in which staking slashes no validator ([calm]): recorded
+      stake = delegated on the oracle's behalf + what governance removal undelegated since the record was created *)
+Theorem C13_stake_accounting : forall h t ub vs p ops s a r, rate1V vs -> Forall calm ops ->
+  s = run (init h t ub vs p) ops -> recs s a = Some r ->
+  deleg s a (o_val r) = (o_amount r - gov_und s a) * dec_one /\
   (forall v, v <> o_val r -> deleg s a v = 0) /\
-  (gov_und s a = 0 -> o_amount r = deleg s a (o_val r)) /\
-  (~ In a (proposal s) -> deleg s a (o_val r) = 0).
+  (gov_und s a = 0 -> deleg s a (o_val r) = o_amount r * dec_one) /\
+  (~ In a (proposal s) -> deleg s a (o_val r) = 0) /\
+  rate1 s.
 Proof. exact stake_accounting. Qed.
 Print Assumptions C13_stake_accounting.
 
@@ -68,9 +72,39 @@ Print Assumptions C13_gov_und_moves_only_on_removal.
 Theorem C13_stake_backed_refuted : exists ops a r,
   let s := run w_init ops in
   recs s a = Some r /\ In a (proposal s) /\ o_online r = true /\
-  o_amount r = FX 10000 + 1 /\ deleg s a (o_val r) = 1 /\ power r = 100.
+  o_amount r = FX 10000 + 1 /\ deleg s a (o_val r) = 1 * dec_one /\ power r = 100.
 Proof. exact stake_backed_refuted. Qed.
 Print Assumptions C13_stake_backed_refuted.
+
+(*    with validator slashing (the staking module takes tokens from a validator, shares stay): the crosschain
+      helper GetOracleDelegateToken converts the delegation's shares at the validator's rate, so the amount it
+      asks staking to re-delegate / undelegate is never refused as "invalid shares amount", whatever the rate:
+      the oracle can still move away, governance can still remove it, and what matures is what is left *)
+Theorem C13_delegate_token_unbondable : forall V dl a v tok,
+  0 < v_tok V v -> 0 < v_shr V v -> 0 <= dl a v ->
+  delegate_token V dl a v = Some tok ->
+  shares_from_tokens_trunc (v_tok V v) (v_shr V v) tok <= dl a v.
+Proof. exact delegate_token_unbondable. Qed.
+Print Assumptions C13_delegate_token_unbondable.
+
+Theorem C13_delegate_token_accepted_by_staking : forall V dl a v tok,
+  0 < v_tok V v -> 0 < v_shr V v -> 0 <= dl a v ->
+  delegate_token V dl a v = Some tok -> 0 < tok ->
+  exists V' dl' back, stk_unbond V dl a v tok = Some (V', dl', back).
+Proof. exact delegate_token_accepted_by_staking. Qed.
+Print Assumptions C13_delegate_token_accepted_by_staking.
+
+Theorem C13_validator_slash_life_cycle : unbond_needs_entry = false ->
+  let s := run w_init w_F in
+  let s' := exec s (Unbond 0) in
+  vtok s 0 = FX 9595 /\ vshr s 0 = FX 10100 * dec_one /\
+  recs s 3 = Some (mkOracle 3 103 203 (FX 10000) 2 true 2 0) /\ deleg s 3 2 = FX 9500 * dec_one /\ deleg s 3 0 = 0 /\
+  recs s 0 = Some (mkOracle 0 100 200 (FX 10000) 2 false 0 0) /\ deleg s 0 0 = 0 /\ ubds s = [] /\
+  bal_d s 0 = FX 9500 + 7 /\
+  is_ok (step s (Unbond 0)) = true /\ bal_o s' 0 - bal_o s 0 = FX 9500 + 7 /\ recs s' 0 = None /\
+  step s' (Unbond 0) = Err e_notfound.
+Proof. exact validator_slash_life_cycle_if_fixed. Qed.
+Print Assumptions C13_validator_slash_life_cycle.
 
 (* 4. penalties never exceed the stake and are charged once per offline period *)
 Theorem C13_slash_bounded : forall r f, 0 <= slash_amount r f <= Z.max 0 (o_amount r).
@@ -245,7 +279,7 @@ Theorem C13_nonvacuous :
   slash_amount (mkOracle 3 103 203 (FX 10000) 2 false 0 1) (p_fraction (prm s)) = FX 8000 /\
   let s' := exec s (AddDelegate 3 (FX 10000) 0) in
   recs s' 3 = Some (mkOracle 3 103 203 (FX 12000) 6 true 0 0) /\ burned s' = FX 8000 /\
-  deleg s' 3 0 = FX 12000 /\ bal_o s' 3 = FX 280000 /\
+  deleg s' 3 0 = FX 12000 * dec_one /\ bal_o s' 3 = FX 280000 /\
   step s (AddDelegate 3 (FX 8000 - 1) 0) = Err e_invalid /\
   step w_init (Bond 0 100 200 0 (FX 10000)) = Err e_notfound /\
   step (run w_init w_setup) (AddDelegate 0 (FX 90000 + 1) 0) = Err e_above /\
